@@ -766,6 +766,51 @@ func runC09(c *Ctx) {
 			}
 			return true
 		})
+		if !okEq {
+			// the search may live in a helper: h(<…>.NameWithPath, toDelete) comparing its string parameter for equality
+			// with the elements of its slice parameter
+			finfo := f.Info()
+			ast.Inspect(f.Decl.Body, func(nd ast.Node) bool {
+				call, ok := nd.(*ast.CallExpr)
+				if !ok {
+					return true
+				}
+				fn, ok := calleeObj(finfo, call).(*types.Func)
+				if !ok {
+					return true
+				}
+				h := p.funcs[funcID(fn)]
+				if h == nil || h.Decl.Body == nil {
+					return true
+				}
+				passesName, passesList := -1, -1
+				for i, a := range call.Args {
+					d := describeExpr(f, a, 0)
+					if strings.HasSuffix(d, ".NameWithPath") {
+						passesName = i
+					}
+					if d == "param#2" {
+						passesList = i
+					}
+				}
+				if passesName < 0 || passesList < 0 {
+					return true
+				}
+				ast.Inspect(h.Decl.Body, func(m ast.Node) bool {
+					be, ok := m.(*ast.BinaryExpr)
+					if !ok || be.Op != token.EQL {
+						return true
+					}
+					x, y := describeExpr(h, be.X, 0), describeExpr(h, be.Y, 0)
+					pn, pl := "param#"+itoa(passesName), "range(param#"+itoa(passesList)+")"
+					if (x == pn && y == pl) || (x == pl && y == pn) {
+						okEq = true
+					}
+					return true
+				})
+				return true
+			})
+		}
 		c.check(okEq, "delete-files.exact-match", f.ID, p.Pos(f.Decl.Pos()), "an entry is dropped iff its NameWithPath equals a requested path", "DeleteEntriesFromRepo no longer drops entries by exact equality of NameWithPath with a requested path")
 		// rewritten under the key it was read from, only when modified
 		var getKey, putKey string
